@@ -64,7 +64,7 @@ for nm, fn, c, extra in [("finish", "w_top_finish", "top_finish_c", []), ("nulli
       functions=["OS_TOP_%s (macro, via one-line wrapper %s)" % (nm.upper(), fn)],
       what="macro OS_TOP_%s: length arithmetic, appended bytes, earlier bytes unchanged, writes stay inside the segment" % nm.upper(), **OS)
 
-S(id="OS.expand.fail", props=["C17", "C19"], harness="h_os_expand_fail", mode="L", dfcc=False, instr=["--drop-unused-functions"], cbmc=["--malloc-may-fail", "--malloc-fail-null"],
+S(id="OS.expand.fail", props=["C17", "C19"], harness="h_os_expand_fail", mode="L", dfcc=False, defines=["VERIF_OS_EXIT_CHECK=1"], instr=["--drop-unused-functions"], cbmc=["--malloc-may-fail", "--malloc-fail-null"],
   functions=["_OS_expand_memory"], what="exit assertion at the memory request inside _OS_expand_memory: when it fails the stack still owns its current segment and its top object (the owner can still delete it)", **OS)
 S(id="OS.empty", props=["C19", "C12"], harness="h_os_empty", mode="B", dfcc=False, instr=["--drop-unused-functions"], unwind_all=4, canaries=3, bound="<= 3 segments of arbitrary lengths <= CAP",
   functions=["_OS_empty_function"], what="OS_EMPTY keeps the first segment (the one initial_segment_length describes), releases the later ones once, leaves one empty top object and a boundary inside the kept block", **OS)
@@ -566,6 +566,12 @@ S(id="E.vlo_array.expand", props=["C17", "C12"], spec="earley.spec.c", harness="
        "contracts: a failing request leaves through yaep_parse's error exit, whose clean-up deletes every element); afterwards the array has one more initialised element iff it was "
        "used up, the element handed out is an empty vlo, the others are untouched",
   assumes=["A5: _VLO_expand_memory keeps the content and returns a large enough block (assumed contract, as elsewhere)", "array size capped by VCAP elements (object size only)"])
+S(id="E.csv.new", props=["C12"], spec="earley.spec.c", harness="h_csv_new", mode="L", disabled=True,   # first run: 7 min and harness-level failures (see DESIGN 9.7); not registered
+   enforce=["core_symb_vect_new/csv_new_c"],
+  replace=["_OS_expand_memory/os_expand_csv_c", "core_symb_vect_addr_get/csv_addr_get_c", "vlo_array_expand/vlo_array_expand_moves_c", "_VLO_expand_memory/vlo_grow_site_c"], functions=["core_symb_vect_new"], mem=32, timeout=1500,
+  what="the (set core, symbol) record is filled in, takes the next two vlos of the array of vlos, and no element of that array is used through a pointer taken before a call that may move the array "
+       "(vlo_array_expand's use-contract frees the old block); the reduce vector is the block of the element it names",
+  assumes=["use-contract of vlo_array_expand: the array always moves (a correct caller must allow for it; realloc may move)", "A5 (_VLO_expand_memory) is not reached: the harness leaves room for one pointer in new_core_symb_vect_vlo"])
 S(id="T.rule.add", props=["C12", "C10"], spec="symtab.spec.c", harness="h_rule_add", mode="L", canaries=2, enforce=["rule_new_symb_add/rule_add_c"],
   replace=["_OS_expand_memory/os_expand_keep_c"], functions=["rule_new_symb_add"], params={"quick": {"CAP": 8, "RCAP": 3}, "thorough": {"CAP": 8, "RCAP": 3}}, mem=32, timeout=1500, tier="thorough",
   bound="the open array holds <= 3 symbols before the call; the function has no loop (thorough tier only: 5 minutes)",
